@@ -529,3 +529,143 @@ def standard_verdict(ctx, tie, res, args, harness_name):
         ctx.broken.append(("tie:" + tie, "model and implementation disagree: " + json.dumps(res["mismatches"][:3])))
         ctx.write_replay("tie_" + tie, {"kind": "ops", "harness": harness_name, "args": [str(a) for a in args],
                                         "mismatches": res["mismatches"]})
+
+
+# ---------------------------------------------------------------- dsched (trace validation) support
+TSAN_CXX = "clang++-14"
+
+
+def build_dsched_runtime():
+    src = os.path.join(HARNESS, "dsched", "dsched.cpp")
+    hh = file_hash([src, os.path.join(HARNESS, "dsched", "dsched.h")])
+    d = os.path.join(BUILD, "dsched")
+    os.makedirs(d, exist_ok=True)
+    obj = os.path.join(d, "dsched_%s.o" % hh)
+    with Lock("dsched_rt"):
+        if not os.path.exists(obj):
+            rc, out, err = sh(["g++", "-std=c++17", "-O2", "-g", "-c", src, "-o", obj, "-I" + HARNESS])
+            if rc != 0:
+                return None, out + err
+    return obj, ""
+
+
+def build_dsched_harness(src, name=None, with_lib=False, extra_flags=()):
+    """harness + (optionally) dispenso's .cpp files compiled with TSan instrumentation only and linked
+    against the dsched runtime instead of libtsan"""
+    rt, log = build_dsched_runtime()
+    if not rt:
+        return None, "dsched runtime: " + log
+    flags = ["-O1", "-g", "-fsanitize=thread"] + list(extra_flags)
+    lib = None
+    if with_lib:
+        lib, log = build_lib(flags, compiler=TSAN_CXX, tag="dslib")
+        if not lib:
+            return None, log
+    name = name or ("ds_" + os.path.basename(src).rsplit(".", 1)[0])
+    deps = [src, rt] + repo_sources() + [os.path.join(HARNESS, "common.h"), os.path.join(HARNESS, "dsched", "dsched.h")]
+    hh = file_hash(deps, " ".join(flags) + str(lib))
+    d = os.path.join(BUILD, "bin")
+    os.makedirs(d, exist_ok=True)
+    exe = os.path.join(d, "%s_%s" % (name, hh))
+    with Lock("bin_" + name + hh):
+        if os.path.exists(exe):
+            os.utime(exe)
+            return exe, ""
+        obj = exe + ".o"
+        cmd = [TSAN_CXX, "-std=c++17", "-c", src, "-o", obj, "-pthread", "-D%s=1" % GUARD, "-DDSCHED=1",
+               "-I" + HARNESS] + flags + repo_includes()
+        rc, out, err = sh(cmd, timeout=1200)
+        if rc != 0:
+            return None, (out + err)[-6000:]
+        cmd = [TSAN_CXX, obj, rt] + ([lib] if lib else []) + ["-o", exe + ".tmp", "-pthread", "-ldl"]
+        rc, out2, err2 = sh(cmd, timeout=600)
+        try:
+            os.unlink(obj)
+        except OSError:
+            pass
+        if rc != 0:
+            return None, (out2 + err2)[-6000:]
+        os.rename(exe + ".tmp", exe)
+        olds = sorted((p for p in (os.path.join(d, e) for e in os.listdir(d)) if os.path.basename(p).startswith(name + "_")),
+                      key=os.path.getmtime, reverse=True)
+        for p in olds[4:]:
+            try:
+                os.unlink(p)
+            except OSError:
+                pass
+        return exe, ""
+
+
+def trace_validate(ctx, tie, exe, args, timeout=1200, max_report=3):
+    """Run a dsched harness. Its stdout contains, besides PFAIL/STAT/SAMPLE/NT records,
+         TRACE-BEGIN <protocol> <params…>
+         T <event line>            (repeated)
+         TRACE-END <description>
+       blocks. Every block is replayed through the Lean model (dvdriver `trace begin` / `T`);
+       a line the model does not accept is a correspondence failure."""
+    rc, out, err = sh([exe] + [str(a) for a in args], timeout=timeout)
+    lines = out.split("\n")
+    reqs = []
+    idx = []  # (trace number, line text)
+    traces = 0
+    pfails, stats, nts = [], {}, set()
+    cur = None
+    descs = {}
+    for line in lines:
+        if line.startswith("TRACE-BEGIN "):
+            traces += 1
+            cur = traces
+            reqs.append("trace begin " + line[12:])
+            idx.append((cur, line))
+        elif line.startswith("TRACE-END"):
+            descs[cur] = line[9:].strip()
+            cur = None
+        elif line.startswith("T ") and cur is not None:
+            reqs.append(line)
+            idx.append((cur, line))
+        elif line.startswith("PFAIL "):
+            sig, _, det = line[6:].partition(" | ")
+            pfails.append((sig.strip(), det.strip()))
+        elif line.startswith("STAT "):
+            p = line.split()
+            if len(p) == 3:
+                try:
+                    stats[p[1]] = stats.get(p[1], 0) + int(p[2])
+                except ValueError:
+                    pass
+        elif line.startswith("SAMPLE "):
+            ctx.add_samples([line[7:]])
+        elif line.startswith("NT "):
+            nts.add(line[3:].strip())
+    mism = []
+    accepted = 0
+    if reqs:
+        rep = run_driver(reqs)
+        bad_traces = set()
+        if len(rep) != len(reqs):
+            mism.append({"trace": 0, "line": "<driver>", "model": "reply count %d != %d" % (len(rep), len(reqs))})
+        else:
+            for (tn, text), r in zip(idx, rep):
+                if r not in ("ok", "skip") and tn not in bad_traces:
+                    bad_traces.add(tn)
+                    if len(mism) < max_report:
+                        ctxl = [t for (n, t) in idx if n == tn]
+                        k = ctxl.index(text) if text in ctxl else 0
+                        mism.append({"trace": tn, "desc": descs.get(tn, ""), "line": text, "model": r,
+                                     "prefix": ctxl[max(0, k - 25):k + 1]})
+            accepted = traces - len(bad_traces)
+    crashed = rc != 0
+    tail = (out[-1500:] + "\n" + err[-3000:]) if crashed else ""
+    ctx.cov["evaluations"] += traces + stats.get("cases", 0)
+    ctx.cov["distinct_nontrivial"] += len(nts)
+    ctx.cov["traces_validated_against_impl"] += accepted
+    if traces and len(ctx.cov["samples"]) < 5:
+        first = [t for (n, t) in idx if n == 1][:14]
+        ctx.add_samples([{"trace": first, "desc": descs.get(1, "")}])
+    for k, v in stats.items():
+        ctx.notes.setdefault("stats", {})
+        ctx.notes["stats"][tie + "." + k] = ctx.notes["stats"].get(tie + "." + k, 0) + v
+    ctx.notes.setdefault("trace_events", 0)
+    ctx.notes["trace_events"] += len(reqs) - traces
+    return {"ok": not mism and not pfails and not crashed, "mismatches": mism, "pfails": pfails, "stats": stats,
+            "rc": rc, "tail": tail, "crashed": crashed, "nreq": traces}
